@@ -20,7 +20,8 @@ def runSymlink (j : Json) : R (Json × Json) := do
   let mut f : Forest := Forest.empty
   let mut ms : Array Json := #[]
   let mut ss : Array Json := #[]
-  let fuel := 64
+  -- a link chain is never longer than the number of objects, which is at most the number of operations
+  let fuel := max 64 (ops.size + 8)
   for oj in ops do
     let o ← getStr oj "op"
     match o with
